@@ -530,13 +530,15 @@ def run(ctx):
     for iters in range(1, ITERS + 1):
         for stop_last in (False, True):
             stops = []
+            breaks = []
 
-            def policy(cond, node, interp, dec, iters=iters, stop_last=stop_last, stops=stops):
+            def policy(cond, node, interp, dec, iters=iters, stop_last=stop_last, stops=stops, breaks=breaks):
                 parts = cond_parts(cond)
                 if parts and any(a == "tol" for a in cond_atoms(cond)):
                     stops.append(cond)
                     return stop_last and len(stops) == iters
                 if parts and parts[0] in ("le", "lt") and P(parts[2]).is_const():
+                    breaks.append(parts)
                     return False          # breakdown test Wn <= 1e-20: not taken
                 return None
 
@@ -559,6 +561,27 @@ def run(ctx):
                        construct="cgne: initial iterate", loc=f_cg.loc())
                 continue
             I = _I(dom, 2)
+            if iters == 1 and not stop_last:
+                # breakdown guard of the exact line search: it must test the norm the step length divides by, ||W|| = ||D A||, with an
+                # effective threshold no larger than the confirmed 1e-20 (a threshold on ||W||^k bounds ||W|| by c^(1/k): testing the
+                # SQUARE against the same constant gives up on every badly scaled, perfectly conditioned input)
+                X0c = A.adj() * out0[0].nc.terms[(("A", True),)]
+                Wn0 = fro_atom((I - X0c.matmul(A)).matmul(A.adj()).matmul(A))
+                okb, whyb = bool(breaks), "no breakdown test guards the division by ||W||^2"
+                if breaks:
+                    op, lhs, rhs = breaks[0]
+                    c = float(P(rhs).const_value())
+                    eff = None
+                    for e in (1, 2, 3, 4):
+                        if P(lhs).same(Wn0 ** e):
+                            eff = c ** (1.0 / e) if c > 0 else 0.0
+                    if eff is None:
+                        okb, whyb = False, f"the breakdown test concerns {short(lhs)}, not (a power of) ||W|| = ||D A||"
+                    elif eff > 1e-20 * (1 + 1e-9):
+                        okb, whyb = False, (f"the breakdown test stops the iteration as soon as ||W|| <= {eff:.3g} (confirmed threshold: "
+                                            f"1e-20): well-conditioned inputs with small entries are abandoned unconverged")
+                ctx.ob("C13.D3.cgne-breakdown", "cgne breakdown guard", okb, whyb, where=f_cg.where,
+                       construct="cgne: breakdown threshold", loc=f_cg.loc())
             matched = False
             for beta_reg in (True, False):
                 Xc = A.adj() * out0[0].nc.terms[(("A", True),)]
